@@ -41,6 +41,12 @@ def make_base(kind, seed, workdir):
     """Create an initial metafile; returns raw bytes.  kind = (version, opts)
     with version in v1|v2|hy and opts in bare|full|foreign."""
     ver, opts = kind
+    if opts == "big":
+        # a metafile of about 20 KiB (longer than the I/O buffer sizes)
+        pieces = world.content(seed, 77, 1000 * 20)
+        return bencode.encode({b"info": {
+            b"name": b"big", b"piece length": P0, b"length": 1000 * P0,
+            b"pieces": pieces}, b"announce": b"http://t/a"})
     bw = base_world(seed)["unsorted"]
     files = world.files_of(bw, seed)
     if opts == "names":
@@ -324,6 +330,9 @@ class EditBFS:
             "editable fields, and (C07 only) a well-formed but non-canonical "
             "'legacy' metafile with keys in insertion order; top-level keys "
             "named like info-level editable fields are not in the alphabet",
+            "a length sweep: edits of a metafile with a long piece string "
+            "whose results take every byte length in a window around 8, 16, "
+            "32 and 64 KiB",
             "a string for a list field means its whitespace-separated items; "
             "clearing the tracker only requires `announce` to disappear",
         ]
@@ -354,6 +363,12 @@ class EditBFS:
                                "order": order, "seed": seed, "tier": tier})
         if self.id == "C07":
             gs.append({"kind": "cli-orders", "seed": seed, "tier": tier})
+        # metafile length sweep: the edited file takes every length in a
+        # window around 8 KiB, 16 KiB, 32 KiB and 64 KiB (buffer sizes)
+        for target in (8192, 16384, 32768, 65536):
+            for ver in ("v1", "hy"):
+                gs.append({"kind": "length", "target": target, "ver": ver,
+                           "seed": seed, "tier": tier})
         return gs
 
     # -- oracles
@@ -408,9 +423,80 @@ class EditBFS:
                 probs.append(("info-bytes-changed-by-tracker-only-edit", None))
         return model._dedup(probs)
 
+    def run_length(self, g):
+        """Edits whose results take every byte length in a window around a
+        power-of-two size (reference-encoded base with a long piece string)."""
+        res = core.Result()
+        seed, target = g["seed"], g["target"]
+        work = world.fresh_dir()
+        state_file = os.path.join(work, "m.torrent")
+        npieces = max(1, (target - 700) // 20)
+        pieces = world.content(seed, 77, npieces * 20)
+        info = {b"name": b"big", b"piece length": P0,
+                b"length": npieces * P0, b"pieces": pieces}
+        meta = {b"info": info, b"announce": b"http://t/a",
+                b"created by": b"ref"}
+        if g["ver"] == "hy":
+            root = world.content(seed, 78, 32)
+            layer = world.content(seed, 79, 64)
+            info[b"meta version"] = 2
+            info[b"file tree"] = {b"big": {b"": {
+                b"length": npieces * P0, b"pieces root": root}}}
+            info[b"pieces"] = pieces[:max(20, (npieces - 8) * 20)]
+            meta[b"piece layers"] = {root: layer}
+        raw0 = bencode.encode(meta)
+        lengths = set()
+        for n in range(0, 900):
+            for field in ("comment", "url-list"):
+                val = "c" * n if field == "comment" else ["http://w/" + "u" * n]
+                req = ((field, val),)
+                with open(state_file, "wb") as f:
+                    f.write(raw0)
+                try:
+                    apply_request("lib", state_file, req)
+                    with open(state_file, "rb") as f:
+                        after = f.read()
+                except Exception as e:  # noqa
+                    res.violation(f"{self.id}|lib|edit-raised:"
+                                  f"{type(e).__name__}|length-sweep",
+                                  {"kind": "length", "target": target,
+                                   "ver": g["ver"], "n": n, "field": field,
+                                   "seed": seed}, str(e)[:100])
+                    continue
+                res.transitions += 1
+                res.evals += 1
+                res.validated += 1
+                lengths.add(len(after))
+                if self.id == "C07":
+                    probs = [p for p, _ in self.judge_transition(raw0, after,
+                                                                 req)]
+                else:
+                    probs, _ = canonical_problems(after)
+                res.outcomes["ok" if not probs else probs[0]] += 1
+                for p in probs:
+                    mult = "multiple-of-%d" % target if len(after) % target \
+                        == 0 or (len(after) // 2) % target == 0 else "other"
+                    res.violation(
+                        f"{self.id}|lib|{p}|length-sweep|{mult}",
+                        {"kind": "length", "target": target, "ver": g["ver"],
+                         "n": n, "field": field, "seed": seed},
+                        {"length": len(after)})
+        res.states += len(lengths)
+        covered = [L for L in (target - 1, target, target + 1)
+                   if L in lengths]
+        if len(covered) != 3 and not res.nviol:
+            raise core.InfraError(
+                f"length sweep does not cover {target}+-1: {sorted(lengths)[:3]}"
+                f"..{sorted(lengths)[-3:]}")
+        res.sample({"kind": "length", "target": target, "ver": g["ver"],
+                    "lengths": [min(lengths), max(lengths)]})
+        return res
+
     def run_group(self, g):
         if g["kind"] == "create":
             return self.run_create(g)
+        if g["kind"] == "length":
+            return self.run_length(g)
         if g["kind"] == "cli-orders":
             return self.run_cli_orders(g)
         res = core.Result()
@@ -612,6 +698,13 @@ class EditBFS:
                                 os.path.join(parent, "o.torrent"), P0, **kw)
             cp, _ = canonical_problems(raw)
             return [{"sig": f"C06|create|{p}", "detail": p} for p in cp]
+        if case.get("kind") == "length":
+            r = self.run_length({"seed": seed, "target": case["target"],
+                                 "ver": case["ver"]})
+            return [{"sig": v["sig"], "detail": v["detail"]}
+                    for v in r.violations
+                    if v["case"]["n"] == case["n"]
+                    and v["case"]["field"] == case["field"]]
         work = world.fresh_dir()
         state_file = os.path.join(work, "m.torrent")
         if case.get("kind") == "cli-order":
@@ -708,8 +801,10 @@ class EditFaults:
     def groups(self, tier, seed):
         gs = []
         for ver in ("v1", "v2", "hy"):
-            for opts in ("bare", "full", "bare-symlink"):
+            for opts in ("bare", "full", "bare-symlink", "big"):
                 if opts == "bare-symlink" and ver != "hy":
+                    continue
+                if opts == "big" and ver != "v1":
                     continue
                 for name, _ in C17_REQUESTS:
                     for route in ("lib",) + (("cli",) if not
